@@ -422,6 +422,17 @@ def tus(tier, seed):
                 body += '  C15_MK("%s", "c", "%d", %s(%s))\n' % (fn, v, cxx, const_expr(v))
         body += '}\n'
         res.append(dict(name='C15_mk_%d' % (i // per), src=body, compiler='g++', compile_timeout=1200))
+    # explicit Narrowest: digit counts at the widths of the built-in types (7/8, 15/16, 31/32, 63/64 used digits)
+    nvals = [127, 128, 255, 256, 32767, 32768, 65535, 65536, 0x8001, 0xFFFF00, 0x7FFF00, 2147483647, 2147483648, 4294967295, 4294967296, -128, -32768, -65535, 0xFFFFFFFF00, (1 << 63) - 1]
+    nts = [('signed char', 'i8'), ('unsigned char', 'u8'), ('short', 'i16'), ('unsigned short', 'u16'), ('int', 'i32'), ('unsigned', 'u32')]
+    for i, (ct, nt) in enumerate(nts):
+        body = HEAD + 'int main(){ install();\n'
+        for v in nvals:
+            if v < 0 and nt[0] == 'u':
+                continue
+            body += '  C15_MK("elastic_scaled_integer", "%s c", "%d", cnl::make_elastic_scaled_integer<%s>(%s))\n' % (nt, v, ct, const_expr(v))
+        body += '}\n'
+        res.append(dict(name='C15_mkn_%d' % i, src=body, compiler='g++', compile_timeout=1200))
     body = HEAD + 'int main(){ install(); Rng rng(seed_from_env());\n'
     for t in ('signed char', 'unsigned char', 'short', 'unsigned short', 'int', 'unsigned', 'long', 'unsigned long'):
         body += '  c15_mk_values<%s>(rng);\n' % t
